@@ -114,7 +114,7 @@ Definition body_size (l : list sk) : nat := fold_right (fun x a => (sk_size x + 
 Definition compile_handler (l : list sk) : bytes := fst (comp_body (S (body_size l)) l) ++ [b 1].
 
 (* ---- running the decompiler model on it ---- *)
-Definition flow_ctx : ctx := Build_ctx [] 6 flow_names ["h"] [] false.
+Definition flow_ctx : ctx := Build_ctx [] 6 flow_names ["h"] [] [] false.
 Definition flow_fn : fndef := Build_fndef "h" 0 [] flow_locals [] [] false.
 
 Definition decompile_handler (code : bytes) : result (list node) :=
